@@ -21,6 +21,7 @@ SimCons == ExecCons
 Set123 == {1, 2, 3}
 SubOnly == {"sub"}
 SimpleOneSim == SimpleOne \ SimpleSolo
+DolOnly == {"dol"}
 OneUnits == {"prog", "sub", "fun", "mod", "bdata"}
 OneCons == {"if", "do", "dol", "selcase", "where"}
 Spec == GSpec
